@@ -124,8 +124,18 @@ func H_C16_effects() {
 	}
 	target := last + "/" + wantBase
 	c := vWriterCache(dirs...)
+	rawSpec := vValidRaw(vendor + "/" + class)
+	if nondetBool("index-already-holds-this-spec") {
+		// histories: an earlier write + refresh left an identical Spec for this path in the index; the file may be gone
+		if old, oerr := newSpec(vValidRaw(vendor+"/"+class), target, ndirs-1); oerr == nil {
+			c.specs[vendor] = []*Spec{old}
+			for _, dv := range old.devices {
+				c.devices[dv.GetQualifiedName()] = dv
+			}
+		}
+	}
 	vJSONCalls, vYAMLCalls = 0, 0
-	err := c.WriteSpec(vValidRaw(vendor+"/"+class), name)
+	err := c.WriteSpec(rawSpec, name)
 	if err == nil {
 		vreach("written")
 		e, ok := vDisk[target]
